@@ -107,6 +107,7 @@ func (t *template) layout(ctx context.Context, w io.Writer) error {
 	maxDepth := 100
 	depth := 0
 	var inheritedSlotScope *SlotScope // Slots defined in child templates (as DOM nodes)
+	visited := make(map[string]bool)  // layout files already rendered in this chain
 
 	// Build layout chain and render intermediate templates
 	for {
@@ -115,6 +116,18 @@ func (t *template) layout(ctx context.Context, w io.Writer) error {
 			return fmt.Errorf("layout chain depth exceeded maximum of %d, possible circular dependency", maxDepth)
 		}
 		depth++
+
+		// A file that comes up a second time means the chain is circular. Report it
+		// now: rendering the cycle up to the maximum depth can grow the content
+		// exponentially (a layout that uses its content twice doubles it per round).
+		// (The page itself is not recorded, so rendering a layout file directly
+		// as a page still gets the default layout applied once.)
+		if !isFirstTemplate {
+			if visited[filename] {
+				return fmt.Errorf("layout chain depth exceeded maximum of %d, circular dependency on %s", maxDepth, filename)
+			}
+			visited[filename] = true
+		}
 
 		// Create a fresh buffer for each iteration
 		buf := new(bytes.Buffer)
